@@ -49,7 +49,7 @@ def write_replay(prop: str, ob: Obligation) -> tuple[str, bool, str]:
     body += ["if w:", "    print('FAILING INPUT:', w)", "    sys.exit(1)",
              "print('no failing input found by the witness search')", "sys.exit(0)"]
     header = [f"# replay of refuted obligation {ob.full_key}", f"# kind: {ob.kind}   function: {ob.func}",
-              f"# contract clause: {ob.detail}", "# verifier output:"] + \
+              "# contract clause: " + " ".join((ob.detail or "").split()), "# verifier output:"] + \
              ["#   " + ln for ln in (ob.reason or "").splitlines()] + \
              ["# run: cd /verif && /venv/bin/python " + os.path.relpath(path, VERIF), ""]
     open(path, "w").write("\n".join(header + body) + "\n")
